@@ -88,7 +88,9 @@ func (fr *Frame) instr(ins ssa.Instruction) {
 		fr.vals[x] = tup[x.Index]
 	case *ssa.MakeClosure:
 		fr.closures[x] = x
-		fr.vals[x] = enc.declare("clos_"+x.Fn.Name(), "Int")
+		cv := enc.declare("clos_"+x.Fn.Name(), "Int")
+		enc.assume(Lt(IntLit(0), cv), "function literal is non-nil")
+		fr.vals[x] = cv
 	case *ssa.MakeSlice:
 		l, c := fr.val(x.Len), fr.val(x.Cap)
 		enc.oblige("safety:make", fr.where(x), "make: len out of range", nil, pc, And(Le(IntLit(0), l), Le(l, c)))
